@@ -71,6 +71,19 @@ fn items_for(ctx: &Ctx, heavy_build: bool) -> Vec<(u32, u16, &'static str)> {
         mid_ladder()
     };
     let mut v = vec![];
+    // every block size of a contiguous range (one symbol size, one data pattern): differences between builds or
+    // back-ends that only exist for some K (a loop bound, a word boundary in the matrix width) have nowhere to hide
+    let dense_to: u32 = match (heavy_build, ctx.quick()) {
+        (false, true) => 170,
+        (true, true) => 110,
+        (false, false) => 700,
+        (true, false) => 330,
+    };
+    for k in 1..=dense_to {
+        if !ks.contains(&k) {
+            v.push((k, 7u16, "pos"));
+        }
+    }
     for &k in &ks {
         for &t in &[1u16, 7, 64, 65] {
             for d in ["pos", "lcg"] {
@@ -93,7 +106,7 @@ fn items_arg(items: &[(u32, u16, &'static str)]) -> String {
 
 fn run_binary(env_name: &str, extra_first: &[&str], items: &[(u32, u16, &'static str)], special: &str, all_kernels: bool) -> Vec<String> {
     let bin = std::env::var(env_name).unwrap_or_else(|_| machinery_failure(&format!("{} not set (run through ./check)", env_name)));
-    let mut cmd = std::process::Command::new(&bin);
+    let mut cmd = crate::common::child_command(&bin);
     cmd.args(extra_first);
     cmd.arg("--items").arg(items_arg(items)).arg("--special").arg(special);
     if all_kernels {
@@ -173,7 +186,7 @@ pub fn replay(case: &Value) -> Result<(), String> {
         }
         done.push(key);
         let bin = std::env::var(env_name).map_err(|_| format!("{} not set", env_name))?;
-        let out = std::process::Command::new(&bin).args(first).arg("--items").arg(items_arg(&item)).arg("--special").arg(&special).arg("--only-kernels").arg(parts[2]).output().map_err(|e| e.to_string())?;
+        let out = crate::common::child_command(&bin).args(first).arg("--items").arg(items_arg(&item)).arg("--special").arg(&special).arg("--only-kernels").arg(parts[2]).output().map_err(|e| e.to_string())?;
         let so = String::from_utf8_lossy(&out.stdout).to_string();
         if !so.lines().any(|l| l.starts_with("DIGEST-DONE")) {
             return Err(format!("configuration {} crashed on {}", c, it));
@@ -269,7 +282,7 @@ pub fn run(ctx: &Ctx) -> i32 {
     }
     finish(ctx, &st, Finish {
         level: "exploration",
-        rule: format!("configuration lattice: builds {{release, debug-assertions+overflow-checks}} x {{std, no_std}} (four binaries) x kernel family forced through the dispatchers {{auto(AVX-512), avx512, avx2, ssse3, portable}} (std; no_std is portable by construction) x sparse threshold {{0, 250, infinity}} x plan mode {{new cold, new warm (global cache), explicit plan (hooked threshold and public generate), unplanned}}; workload: {} items (K ladder x T in {{1,7,64,65}} x data {{pos,lcg}}; {} items in the cubic debug-assertions builds): digest (two independent 64-bit hashes) of all source + 16 near + 4 far repair packets, and for each of 5-7 erasure patterns (incl. one rank-deficient set and one set that forces the GF(2) fast path to fall back, both found with the reference rank oracle) the decode outcome and bytes under all three decoder thresholds. Oracle: for every item all configurations give the identical digest. distinct_nontrivial = items compared across >= 2 configurations.", light.len(), heavy.len()),
+        rule: format!("configuration lattice: builds {{release, debug-assertions+overflow-checks}} x {{std, no_std}} (four binaries) x kernel family forced through the dispatchers {{auto(AVX-512), avx512, avx2, ssse3, portable}} (std; no_std is portable by construction) x sparse threshold {{0, 250, infinity}} x plan mode {{new cold, new warm (global cache), explicit plan (hooked threshold and public generate), unplanned}}; workload: {} items (K ladder x T in {{1,7,64,65}} x data {{pos,lcg}}, plus EVERY K of a contiguous range at T=7 (release 1..=170 quick / 700 thorough; debug-assertions 1..=110 / 330); {} items in the cubic debug-assertions builds): digest (two independent 64-bit hashes) of all source + 16 near + 4 far repair packets, and for each of 5-7 erasure patterns (incl. one rank-deficient set and one set that forces the GF(2) fast path to fall back, both found with the reference rank oracle) the decode outcome and bytes under all three decoder thresholds. Oracle: for every item all configurations give the identical digest. distinct_nontrivial = items compared across >= 2 configurations.", light.len(), heavy.len()),
         exhaustive: false,
         assumptions: vec!["NEON/aarch64, 32-bit x86, big-endian targets and other compiler versions cannot be executed here".into(), "the debug-assertions builds run a reduced workload (cubic self-checks)".into()],
         extra: Map::new(),
